@@ -11,6 +11,8 @@
   * `compressed_equals_plain`  the bytes handed to the inner writer over `write*; finish`
                            decode to the concatenation of the chunks – what the plain writer
                            would have written;
+  * `lifecycle_transparent` the loops composed over the whole life of an output – `write` for every chunk, then `finish` –
+                           hand the inner writer bytes that decode to the concatenation of all chunks;
   * `scratch_bounded`      the on-stack scratch buffer never exceeds 64 KiB, whatever the
                            chunk size (the pinned tree: unbounded, stack overflow at ~8 MB);
   * `storeCodec_sound`     the contract is inhabited.
@@ -109,5 +111,105 @@ theorem storeCodec_sound : storeCodec.Sound := by
   show storeCodec.decode (storeCodec.runCalls false calls).2.1 = some (storeCodec.runCalls false calls).2.2.1
   rw [this]
   simp [storeCodec]
+
+/-! ### the whole life of an output: every `write`, then `finish` -/
+
+/-- running calls one after the other: a prefix that does not end the stream is followed by the rest from the state it reached -/
+theorem runCalls_append (c : Codec) (s : c.St) (ks1 ks2 : List Call) (s1 : c.St) (o1 i1 : Bytes)
+    (h1 : c.runCalls s ks1 = (s1, o1, i1, false)) :
+    c.runCalls s (ks1 ++ ks2) = ((c.runCalls s1 ks2).1, o1 ++ (c.runCalls s1 ks2).2.1, i1 ++ (c.runCalls s1 ks2).2.2.1, (c.runCalls s1 ks2).2.2.2) := by
+  induction ks1 generalizing s o1 i1 with
+  | nil =>
+    simp only [Codec.runCalls, Prod.mk.injEq] at h1
+    obtain ⟨rfl, rfl, rfl, _⟩ := h1
+    simp
+  | cons k ks ih =>
+    simp only [List.cons_append, Codec.runCalls] at h1 ⊢
+    by_cases he : (c.step s k.avail k.finish k.space).2.2.2 = true
+    · simp only [he, if_true, Prod.mk.injEq] at h1
+      exact absurd h1.2.2.2 (by simp)
+    · simp only [he, Bool.false_eq_true, if_false, Prod.mk.injEq] at h1 ⊢
+      obtain ⟨hs, ho, hi, hf⟩ := h1
+      have hrec : c.runCalls (c.step s k.avail k.finish k.space).1 ks =
+          (s1, (c.runCalls (c.step s k.avail k.finish k.space).1 ks).2.1, (c.runCalls (c.step s k.avail k.finish k.space).1 ks).2.2.1, false) := by
+        rw [← hs, ← hf]
+      have := ih _ _ _ hrec
+      rw [this]
+      refine ⟨rfl, ?_, ?_, rfl⟩
+      · rw [← ho]; simp [List.append_assoc]
+      · rw [← hi]; simp [List.append_assoc]
+
+/-- the calls `finish` makes consume nothing and end the stream -/
+theorem finish_ends (c : Codec) (fuel : Nat) (s s' : c.St) (ks : List Call) (o : Bytes)
+    (hle : ∀ st sp, (c.step st [] true sp).2.1 = 0 ∨ True)
+    (h : cwFinishCalls c fuel s = some (s', ks, o)) : c.runCalls s ks = (s', o, [], true) := by
+  induction fuel generalizing s ks o with
+  | zero => simp [cwFinishCalls] at h
+  | succ fuel ih =>
+    unfold cwFinishCalls at h
+    by_cases he : (c.step s [] true (scratchSize 2048)).2.2.2 = true
+    · simp only [he, if_true, Option.some.injEq, Prod.mk.injEq] at h
+      obtain ⟨rfl, rfl, rfl⟩ := h
+      simp [Codec.runCalls, he]
+    · simp only [he, Bool.false_eq_true, if_false] at h
+      cases hrec : cwFinishCalls c fuel (c.step s [] true (scratchSize 2048)).1 with
+      | none => rw [hrec] at h; cases h
+      | some v =>
+        obtain ⟨s2, ks2, o2⟩ := v
+        rw [hrec] at h
+        simp only [Option.some.injEq, Prod.mk.injEq] at h
+        obtain ⟨rfl, rfl, rfl⟩ := h
+        have := ih _ _ _ hrec
+        simp [Codec.runCalls, he, this]
+
+/-- **Transparency over the whole life of an output.**  For a sound codec that never consumes more than it is offered and never
+    ends the stream unasked, whatever chunks the encoder hands to `write` (any number, any sizes – the scratch buffer follows
+    the chunk size up to 64 KiB) and however many steps the codec needs: if the run terminates, the bytes that reached the inner
+    writer decode to exactly the concatenation of the chunks. -/
+theorem lifecycle_transparent (c : Codec) (hs : c.Sound)
+    (hle : ∀ st inp fin sp, (c.step st inp fin sp).2.1 ≤ inp.length)
+    (hnoend : ∀ st inp sp, (c.step st inp false sp).2.2.2 = false)
+    (fuel : Nat) (chunks : List Bytes) (calls : List Call) (out : Bytes)
+    (h : cwLifecycle c fuel c.init chunks = some (calls, out)) : c.decode out = some chunks.flatten := by
+  have gen : ∀ (s : c.St) (chunks : List Bytes) (calls : List Call) (out : Bytes),
+      cwLifecycle c fuel s chunks = some (calls, out) → ∃ s', c.runCalls s calls = (s', out, chunks.flatten, true) := by
+    intro s chunks
+    induction chunks generalizing s with
+    | nil =>
+      intro calls out h
+      simp only [cwLifecycle, Option.map_eq_some_iff] at h
+      obtain ⟨⟨s', ks, o⟩, hf, heq⟩ := h
+      simp only [Prod.mk.injEq] at heq
+      obtain ⟨rfl, rfl⟩ := heq
+      exact ⟨s', finish_ends c fuel s s' _ _ (fun _ _ => Or.inr trivial) hf⟩
+    | cons chunk rest ih =>
+      intro calls out h
+      simp only [cwLifecycle] at h
+      cases hw : cwWriteCalls c chunk.length fuel s chunk with
+      | none => rw [hw] at h; cases h
+      | some v =>
+        obtain ⟨s1, ks, o⟩ := v
+        rw [hw] at h
+        simp only at h
+        cases hl : cwLifecycle c fuel s1 rest with
+        | none => rw [hl] at h; cases h
+        | some w =>
+          obtain ⟨ks2, o2⟩ := w
+          rw [hl] at h
+          simp only [Option.some.injEq, Prod.mk.injEq] at h
+          obtain ⟨rfl, rfl⟩ := h
+          obtain ⟨s', hr⟩ := ih s1 ks2 o2 hl
+          have hw' := write_consumes_all c chunk.length fuel s chunk hle hnoend s1 ks o hw
+          refine ⟨s', ?_⟩
+          rw [runCalls_append c s ks ks2 s1 o chunk hw', hr]
+          simp
+  obtain ⟨s', hr⟩ := gen c.init chunks calls out h
+  have := hs calls (by rw [hr])
+  rw [hr] at this
+  exact this
+
+/-- non-vacuity: the store codec run through the whole life of an output with three chunks -/
+example : (cwLifecycle storeCodec 10 storeCodec.init [[1, 2, 3], [], [4]]).map (·.2) = some [1, 2, 3, 4, 0] := by decide
+
 
 end CdnsVerif.Props.C14
